@@ -425,12 +425,32 @@ theorem wrap_regenerated_from_source :
   ⟨by decide, fun A p f h env resp0 => Retry.wrap_regenerated_from_source A p f h env resp0⟩
 
 theorem createWrapper_regenerated_from_source :
-    Gen.FactsC10IR.extractionFailed = false ∧
+    Gen.FactsC10IRc.extractionFailed = false ∧
     ∀ (wd0 : Int) (ws : String) (parse : String → Int × Bool),
-      Gen.FactsC10IR.createWrapperIR wd0 ws parse = createWrapperG wd0 ws parse ∧
+      Gen.FactsC10IRc.createWrapperIR wd0 ws parse = createWrapperG wd0 ws parse ∧
       (createWrapperG wd0 ws parse : Int) =
         (createWrapper (if ws != "" then (parse ws).1 else wd0) : Nat) :=
   ⟨by decide, fun wd0 ws parse => ⟨Retry.createWrapper_regenerated_from_source wd0 ws parse, rfl⟩⟩
+
+/-- **Wrappers created from one policy object are independent**: `CreateWrapper` (regenerated: a function of
+the policy's own fields that writes only `waitDuration`) is idempotent, so after `k ≥ 1` calls on the same
+object — `InjectResiliencePolicy` makes one per server pool that names the policy — `waitDuration` is what one
+call gives; the closure returned by `Wrap` reads only the policy's fields, hence every wrapped call behaves
+as if its wrapper were the only one: in particular it makes at most `maxAttempts` attempts however many
+wrappers exist. (A `CreateWrapper` that accumulates state in the shared policy breaks
+`createWrapper_regenerated_from_source`.) -/
+theorem wrappers_independent {F : Type} (A : FloatOps F) (p : RetryPolicy) (f : F)
+    (h : Nat → Option Nat → Option SPErr × Option Nat) (env : EnvG) (resp0 : Option Nat)
+    (wd0 : Int) (ws : String) (parse : String → Int × Bool) (k : Nat) :
+    createWrapperTimes ws parse (k + 1) wd0 = Gen.FactsC10IRc.createWrapperIR wd0 ws parse ∧
+    Gen.FactsC10IR.wrapIR A { p with wait := (createWrapperTimes ws parse (k + 1) wd0).toNat } f h env resp0 =
+      Gen.FactsC10IR.wrapIR A { p with wait := (createWrapperTimes ws parse 1 wd0).toNat } f h env resp0 := by
+  rw [createWrapperTimes_succ, createWrapperTimes_succ, Retry.createWrapper_regenerated_from_source]
+  exact ⟨rfl, rfl⟩
+
+/-- three pools share a policy with `waitDuration: ""`: 500 ms after the first, the second and the third call -/
+example : createWrapperTimes "" (fun _ => (0, true)) 3 0 = 500000000 ∧
+    createWrapperTimes "" (fun _ => (0, true)) 1 0 = 500000000 := by decide
 
 /-- `ServerPool.doHandle` = the model's classification (no server ⇒ 503 internalError … deadline ⇒ 408
 timeout, client gone ⇒ 499, failure code keeps the response). -/
